@@ -426,13 +426,20 @@ func (r *Reader) FindBlockForKey(key []byte) ([]BlockLocator, error) {
 	var blocks []BlockLocator
 	seenBlocks := make(map[uint64]bool)
 
-	// First try binary search for efficiency - find the first block
-	// where the first key is >= our target key
+	// The index holds the first key of each block: the key can only be in the
+	// last block whose first key is <= key. Start there (from the first block
+	// if there is no such block)
 	indexIter := r.indexBlock.Iterator()
-	indexIter.Seek(key)
-
-	// If the seek fails, start from beginning to check all blocks
-	if !indexIter.Valid() {
+	var blockKey []byte
+	for indexIter.SeekToFirst(); indexIter.Valid(); indexIter.Next() {
+		if bytes.Compare(indexIter.Key(), key) > 0 {
+			break
+		}
+		blockKey = indexIter.Key()
+	}
+	if blockKey != nil {
+		indexIter.Seek(blockKey)
+	} else {
 		indexIter.SeekToFirst()
 	}
 
